@@ -16,7 +16,7 @@ import (
 
 // The slots of a round: one shared *font.Font per slot ("collection" shares two
 // faces of one file).
-var slotKinds = []string{"glyf", "cff", "cff2", "var", "aat-morx", "aat-kerx", "kern", "bitmap", "sbix", "svg", "ot-layout", "collection"}
+var slotKinds = []string{"glyf", "cff", "cff2", "var", "aat-morx", "aat-kerx", "kern", "bitmap", "sbix", "sbix-dupe", "svg", "ot-layout", "collection"}
 
 // fonts are re-parsed every round; keep that cheap. The kinds with very few
 // small representatives may use larger files.
@@ -109,6 +109,9 @@ func classify() map[string][]faceID {
 			}
 		}
 	}
+	if _, err := synthSbix(); err == nil {
+		out["sbix-dupe"] = []faceID{{synthSbixDupes, 0}}
+	}
 	for _, l := range out {
 		sort.Slice(l, func(i, j int) bool {
 			if l[i].File != l[j].File {
@@ -178,11 +181,11 @@ func loadFace(id faceID) (ft *font.Font, ld *ot.Loader, err error) {
 			err = fmt.Errorf("panic while loading: %v", e)
 		}
 	}()
-	f := corpus.ByID(id.File)
-	if f == nil {
-		return nil, nil, fmt.Errorf("no corpus file %s", id.File)
+	data, err := fileBytes(id.File)
+	if err != nil {
+		return nil, nil, err
 	}
-	lds, err := ot.NewLoaders(bytes.NewReader(f.Bytes()))
+	lds, err := ot.NewLoaders(bytes.NewReader(data))
 	if err != nil {
 		return nil, nil, err
 	}
